@@ -284,4 +284,117 @@ theorem own_trans_full (s s' : CSt) (e : CEv) (a : Nat) (c c' : Con) (hs : cstep
       exact fin b' _ hs.symm (.goRel a c hgo)
   · exact own_trans s s' _ a c c' hs h1 h2 (Or.inr (Or.inr (Or.inr (Or.inr rfl))))
 
+/-- what the event of consumer `a` does to the base component -/
+def OwnBase (s s' : CSt) (e : CEv) (a : Nat) (c' : Con) : Prop :=
+  match e with
+  | .base be => step s.b be = some s'.b
+  | .goRel _ => step s.b (.selfRelSwap a) = some s'.b
+  | .ret _ _ _ => True
+  | _ => ((∃ v x, c'.pc = .exitWait v x) ∧ step s.b (.selfRelSwap a) = some s'.b) ∨ s'.b = s.b
+
+theorem own_base (s s' : CSt) (e : CEv) (a : Nat) (c c' : Con) (hs : cstep s e = some s')
+    (h1 : getCon s a = some c) (h2 : getCon s' a = some c') (ht : Targets e a) : OwnBase s s' e a c' := by
+  have hlt := getCon_lt s a c h1
+  have same : s'.b = s.b → (∀ be, e ≠ .base be) → (∀ a0, e ≠ .goRel a0) → (∀ a0 v x, e ≠ .ret a0 v x) →
+      OwnBase s s' e a c' := by
+    intro hb n1 n2 n3
+    cases e with
+    | base be => exact absurd rfl (n1 be)
+    | goRel a0 => exact absurd rfl (n2 a0)
+    | ret a0 v x => exact absurd rfl (n3 a0 v x)
+    | _ => exact Or.inr hb
+  have exit : ∀ (c1 : Con) (v x : Nat), exitRel s a c1 v x = some s' → (∀ be, e ≠ .base be) → (∀ a0, e ≠ .goRel a0) →
+      (∀ a0 v x, e ≠ .ret a0 v x) → OwnBase s s' e a c' := by
+    intro c1 v x hx n1 n2 n3
+    have hget := exitRel_get s s' a c1 v x hx hlt
+    rw [h2] at hget
+    have hpc : ∃ v x, c'.pc = .exitWait v x := by cases hget; exact ⟨v, x, rfl⟩
+    have hmv := (exitRel_move s s' a c1 v x hx).1
+    cases e with
+    | base be => exact absurd rfl (n1 be)
+    | goRel a0 => exact absurd rfl (n2 a0)
+    | ret a0 v x => exact absurd rfl (n3 a0 v x)
+    | _ => exact Or.inl ⟨hpc, hmv⟩
+  rcases ht with rfl | ⟨res, v, er, rfl⟩ | rfl | rfl | ⟨i, v, rfl⟩ | ⟨i, r, rfl⟩ | rfl | rfl | rfl | rfl | rfl |
+      ⟨v, x, rfl⟩ | rfl | rfl | rfl
+  · simp only [cstep] at hs
+    cases hst : step s.b (.addRefCS a) with
+    | none => simp [hst] at hs
+    | some b' =>
+      simp only [hst, h1] at hs
+      split at hs <;> simp at hs
+      subst hs
+      exact hst
+  · simp only [cstep] at hs
+    cases hst : step s.b (.cb (.refcb a false res v er)) with
+    | none => simp [hst] at hs
+    | some b' =>
+      simp [hst, h1] at hs
+      subst hs
+      exact hst
+  · simp only [cstep, h1] at hs
+    split at hs <;> try simp at hs
+    split at hs
+    · split at hs <;> simp at hs <;> subst hs <;> exact same rfl (by simp) (by simp) (by simp)
+    · exact exit (snapped c) 0 c.ce hs (by simp) (by simp) (by simp)
+  · simp only [cstep, h1] at hs
+    split at hs <;> try simp at hs
+    all_goals
+      obtain ⟨_, rfl⟩ := hs
+      exact same rfl (by simp) (by simp) (by simp)
+  · simp only [cstep, h1] at hs
+    split at hs <;> try simp at hs
+    obtain ⟨_, rfl⟩ := hs
+    exact same rfl (by simp) (by simp) (by simp)
+  · simp only [cstep, h1] at hs
+    split at hs <;> try simp at hs
+    obtain ⟨_, rfl⟩ := hs
+    exact same rfl (by simp) (by simp) (by simp)
+  · simp only [cstep, h1] at hs
+    split at hs <;> try simp at hs
+    split at hs
+    · exact exit c 0 9 hs (by simp) (by simp) (by simp)
+    · simp at hs; subst hs; exact same rfl (by simp) (by simp) (by simp)
+  · simp only [cstep, h1] at hs
+    split at hs <;> try simp at hs
+    rename_i r n ch hpc
+    split at hs
+    · exact exit c 0 r hs (by simp) (by simp) (by simp)
+    · simp at hs; subst hs; exact same rfl (by simp) (by simp) (by simp)
+  · simp only [cstep, h1] at hs
+    split at hs <;> try simp at hs
+    exact exit c 0 9 hs.2 (by simp) (by simp) (by simp)
+  · simp only [cstep, h1] at hs
+    split at hs <;> try simp at hs
+    split at hs <;> try simp at hs
+    rename_i v e hp
+    split at hs
+    · simp at hs; subst hs; exact same rfl (by simp) (by simp) (by simp)
+    · exact exit c v e hs (by simp) (by simp) (by simp)
+  · simp only [cstep, h1] at hs
+    split at hs <;> try simp at hs
+    exact exit c 0 9 hs (by simp) (by simp) (by simp)
+  · trivial
+  · simp [cstep, h1] at hs; subst hs
+    exact same rfl (by simp) (by simp) (by simp)
+  · simp only [cstep, h1] at hs
+    split at hs <;> try simp at hs
+    cases hst : step s.b (.selfRelSwap a) with
+    | none => simp [hst] at hs
+    | some b' =>
+      simp [hst] at hs; subst hs
+      exact hst
+  · simp only [cstep, h1] at hs
+    split at hs <;> simp at hs
+    subst hs
+    exact same rfl (by simp) (by simp) (by simp)
+
+/-- an event that does not belong to consumer `a` does not swap `a`'s once-flag -/
+theorem other_swap (s s' : CSt) (e : CEv) (a a0 : Nat)
+    (h : e = .snap a0 ∨ e = .check a0 ∨ e = .recheck a0 ∨ e = .waitCancel a0 ∨ e = .await a0 ∨ e = .awaitCancel a0 ∨
+      e = .goRel a0) (hnt : ¬ Targets e a) : a0 ≠ a := by
+  intro e0; subst e0
+  apply hnt
+  rcases h with h | h | h | h | h | h | h <;> subst h <;> simp [Targets]
+
 end UtilModel.RefCount.Cons
